@@ -369,7 +369,204 @@ def expected_total(weights, sc):
                      [weights[i] for i in sc['finished']])
 
 
-def judge_monitor(case, scenarios, w, scratch_root):
+class LockProbe(object):
+    """A second thread that plays "the rest of the controller": it applies a state change only if it can take
+    the controller's comp_lock WITHOUT blocking, i.e. only while the status monitor is not inside its
+    lock-protected snapshot.  The requesting (monitor) thread waits for the answer, so the interleaving is
+    decided by call counts, never by timing."""
+
+    def __init__(self, lock):
+        import queue
+        self.lock = lock
+        self.req = queue.Queue()
+        self.ans = queue.Queue()
+        self.thread = threading.Thread(target=self._loop, name='c20-lockprobe', daemon=True)
+        self.thread.start()
+
+    def _loop(self):
+        while True:
+            fn = self.req.get()
+            if fn is None:
+                return
+            got = self.lock.acquire(False)
+            if got:
+                try:
+                    fn()
+                finally:
+                    self.lock.release()
+            self.ans.put(got)
+
+    def try_apply(self, fn):
+        self.req.put(fn)
+        return self.ans.get()
+
+    def stop(self):
+        self.req.put(None)
+
+
+class DynamicController(object):
+    """Scripted controller whose state CHANGES during a status check.  State: current stage `cur` (stages
+    0..cur are initialised), per stage the number of components and how many have finished.  As in the real
+    Controller a stage with an unfinished component is "in transit", an initialised stage without one is
+    "finished", get_stage_status is finished/total.  Events (component completions, a stage finishing, the
+    controller advancing to the next stage) only move forward.  They are applied at the n-th call of ANY
+    controller method - by the LockProbe thread under comp_lock, hence only when the monitor does not hold
+    comp_lock; otherwise they stay due and are retried at the next call."""
+
+    def __init__(self, exp, codes):
+        self.exp = exp
+        self.codes = codes
+        self.comp_lock = threading.RLock()
+        self.probe = LockProbe(self.comp_lock)
+        self.arm({'cur': 0, 'total': [1] * len(exp._stages), 'done': [0] * len(exp._stages)}, [], 1, False)
+
+    def arm(self, init, events, at, spread):
+        with self.comp_lock:
+            self.cur = init['cur']
+            self.total = list(init['total'])
+            self.done = list(init['done'])
+            self.events = [list(e) for e in events]
+            self.at = at
+            self.spread = spread
+            self.calls = 0
+            self.fired = 0
+            self.start_state = None
+            self.changed_mid_check = 0
+            self.deferred = 0
+
+    def state(self):
+        return {'cur': self.cur, 'done': list(self.done)}
+
+    def _apply(self, k):
+        for ev in self.events[self.fired:self.fired + k]:
+            if ev[0] == 'complete':
+                i = min(ev[1], self.cur)
+                self.done[i] = min(self.total[i], self.done[i] + 1)
+            elif ev[0] == 'finish':
+                i = min(ev[1], self.cur)
+                self.done[i] = self.total[i]
+            elif ev[0] == 'advance' and self.cur < len(self.total) - 1:
+                self.cur += 1
+        self.fired += k
+
+    def _boundary(self):
+        self.calls += 1
+        if self.fired < len(self.events) and self.calls >= self.at:
+            k = min(len(self.events) - self.fired, (self.calls - self.at + 1) - self.fired) if self.spread \
+                else len(self.events) - self.fired
+            if k > 0:
+                if self.probe.try_apply(lambda: self._apply(k)):
+                    if self.start_state is not None:
+                        self.changed_mid_check += 1
+                else:
+                    self.deferred += 1
+        if self.start_state is None:
+            self.start_state = self.state()
+
+    def stage(self):
+        self._boundary()
+        return self.exp._stages[self.cur]
+
+    def stageState(self, stage=None):
+        self._boundary()
+        return self.codes.RUNNING_STATE
+
+    def get_stages_in_transit(self):
+        self._boundary()
+        with self.comp_lock:
+            return sorted(i for i in range(self.cur + 1) if self.done[i] < self.total[i])
+
+    def get_stages_finished(self):
+        self._boundary()
+        with self.comp_lock:
+            return sorted(i for i in range(self.cur + 1) if self.done[i] == self.total[i])
+
+    def get_stage_status(self, index):
+        self._boundary()
+        with self.comp_lock:
+            if index > self.cur:
+                return None
+            return self.done[index] / float(self.total[index])
+
+    def generate_status_report_for_nodes(self, _):
+        self._boundary()
+        return ''
+
+
+def state_value(state, total, weights):
+    """Weighted progress of one consistent controller state: finished stages count their weight, initialised
+    stages their finished fraction, stages that have not started nothing."""
+    return math.fsum(weights[i] * (state['done'][i] / float(total[i])) for i in range(state['cur'] + 1))
+
+
+def gen_dynamic(r, n, max_at_extra=2):
+    """Dynamic scenarios for an n-stage workflow: (initial state, forward events) x every call boundary."""
+    out = []
+    for _ in range(3):
+        cur = r.randrange(n)
+        total = [r.choice([1, 2, 2, 3, 4]) for _ in range(n)]
+        done = [0] * n
+        for i in range(cur):
+            done[i] = total[i] if r.random() < 0.5 else r.randrange(total[i] + 0) if total[i] > 1 else r.choice([0, 1])
+        done[cur] = r.randrange(total[cur] + 1)
+        transit = [i for i in range(cur + 1) if done[i] < total[i]]
+        events = []
+        for _k in range(r.randint(1, 4)):
+            c = r.random()
+            if transit and c < 0.55:
+                events.append(['finish', r.choice(transit)])
+            elif c < 0.8:
+                events.append(['complete', r.randrange(cur + 1)])
+            else:
+                events.append(['advance'])
+        if r.random() < 0.3:
+            # everything completes while the monitor looks
+            events = [['finish', i] for i in range(cur + 1)] + [['advance']] * 0
+        init = {'cur': cur, 'total': total, 'done': done}
+        ncalls = 5 + len(transit) + max_at_extra
+        for at in range(1, ncalls + 1):
+            for spread in (False, True):
+                if spread and len(events) < 2:
+                    continue
+                out.append({'init': init, 'events': events, 'at': at, 'spread': spread})
+    return out
+
+
+def judge_dynamic_total(case, SW, dyn, ctl, total, w):
+    w.count('dynamic_checks')
+    if ctl.changed_mid_check:
+        w.count('dynamic_state_changed_during_check')
+    if ctl.deferred:
+        w.count('dynamic_change_deferred_because_monitor_held_comp_lock')
+    start, end = ctl.start_state, ctl.state()
+    tot = dyn['init']['total']
+    lo, hi = state_value(start, tot, SW), state_value(end, tot, SW)
+    w.distinct('d|%d|%s|%s|%d' % (min(case['n'], 7), 'chg' if ctl.changed_mid_check else 'static',
+                                  'S' if dyn['spread'] else 'A', min(dyn['at'], 9)))
+    problems = []
+    if not is_num(total):
+        problems.append('is not a number')
+    else:
+        if total < -TOL or total > 1 + TOL:
+            problems.append('is outside [0,1]')
+        w.count('dynamic_bounded_by_start_and_end_state')
+        if total > hi + TOL:
+            problems.append('exceeds the weighted sum %r of the controller state at the END of the check' % hi)
+        if total < lo - TOL:
+            problems.append('is below the weighted sum %r of the controller state at the START of the check' % lo)
+        complete = start['cur'] == case['n'] - 1 and all(start['done'][i] == tot[i] for i in range(case['n']))
+        if complete:
+            w.count('dynamic_complete_is_one')
+            if abs(total - 1.0) > TOL:
+                problems.append('is not 1 although every stage had completed')
+    for p in problems:
+        report(w, 'total progress %r %s (weights %r; controller %r at the first call, %r at the end; events %r from '
+                  'call %d%s)' % (total, p, SW, start, end, dyn['events'], dyn['at'], ', one per call' if dyn['spread'] else ''),
+               {'case': case, 'where': 'dynamic', 'dynamic': dyn, 'observed': total, 'problem': p,
+                'start': start, 'end': end})
+
+
+def judge_monitor(case, scenarios, w, scratch_root, dynamic=None):
     """Build a real experiment, a real StatusMonitor, and drive the real CheckStatus."""
     import yaml
     import experiment.runtime.output as output
@@ -444,8 +641,41 @@ def judge_monitor(case, scenarios, w, scratch_root):
         if second is not None:
             total = exp.statusFile.totalProgress()
             judge_total(case, SW, g, second, total, vector_known, w)
-    if w.counters.get('monitor_judged', 0) % 40 == 1:
+    if w.counters.get('monitor_judged', 0) % 40 == 1 and scenarios:
         w.sample({'case': case, 'monitor_weights': SW, 'scenario': scenarios[0]})
+    if not dynamic or not ok or vector_known:
+        return
+    # ---- the controller changes state DURING the status check
+    ctl = DynamicController(exp, codes)
+    try:
+        it = iter(dynamic)
+        for first in it:
+            second = next(it, None)
+            ctl.arm(first['init'], first['events'], first['at'], first['spread'])
+            updated.clear()
+            sm.run(ctl)
+            if not updated.wait(60):
+                sm.kill()
+                if ctl.calls >= 12:
+                    report(w, 'CheckStatus did not complete for dynamic scenario %r' % (first,),
+                           {'case': case, 'where': 'dynamic', 'dynamic': first, 'problem': 'no-update'})
+                else:
+                    w.note_inconclusive('StatusMonitor first action (dynamic) not observed within 60 s')
+                return
+            with sm.mtx_compute_status:
+                total = exp.statusFile.totalProgress()
+            judge_dynamic_total(case, SW, first, ctl, total, w)
+            if second is not None:
+                ctl.arm(second['init'], second['events'], second['at'], second['spread'])
+            updated.clear()
+            sm.kill()
+            sm.join()
+            if second is not None:
+                judge_dynamic_total(case, SW, second, ctl, exp.statusFile.totalProgress(), w)
+        if w.counters.get('dynamic_checks', 0) % 500 < 40 and len(w.samples) < 2:
+            w.sample({'case': case, 'monitor_weights': SW, 'dynamic_scenario': dynamic[0]})
+    finally:
+        ctl.probe.stop()
 
 
 def judge_total(case, SW, g, sc, total, vector_known, w):
@@ -538,7 +768,9 @@ def run_job(job, w):
             case = gen_case(r, n)
             if case['kind'] == 'malformed':
                 case = gen_case(r, n)
-            judge_monitor(case, gen_scenarios(r, case['n'], job['exhaustive_upto']), w, scratch)
+            rd = vlib.rng(PROP, 'dynamic', job['id'], i)  # own stream: the static cases stay what they were
+            dyn = gen_dynamic(rd, case['n']) if 2 <= case['n'] <= 8 else None
+            judge_monitor(case, gen_scenarios(r, case['n'], job['exhaustive_upto']), w, scratch, dynamic=dyn)
         shutil.rmtree(scratch, ignore_errors=True)
 
 
@@ -563,6 +795,10 @@ def main():
                        "bools) are counted as rejected and not judged further",
                        "per-stage progress comes from the controller (no status executables); scenarios keep earlier "
                        "stages finished or in transit and later stages not started",
+                       "dynamic scenarios: the scripted controller only moves forward (components complete, stages finish, "
+                       "the current stage advances); its state changes are applied by a second thread under comp_lock, i.e. "
+                       "never while the monitor holds comp_lock; the total must lie between the weighted sums of the "
+                       "controller state at the first call and at the end of the check",
                        "'sum to one' and equality of totals are judged with tolerance 1e-9; identity with the given "
                        "weights is exact",
                        "a package that gives weights for only some stages is only required to end up with non-negative "
@@ -575,6 +811,8 @@ def main():
         case = wit['case']
         if wit['where'] in ('normaliser', 'load', 'validate'):
             judge_normaliser(case, w)
+        elif wit['where'] == 'dynamic':
+            judge_monitor(case, [], w, vlib.mkscratch('c20r'), dynamic=[wit['dynamic']])
         elif wit['where'] == 'legacy':
             m = mods()
             judge_legacy_replay(case, w)
@@ -602,6 +840,9 @@ def main():
     c.floor('progress_scenarios', 200 if quick else 5000)
     c.floor('progress_complete_is_one', 100 if quick else 1000)
     c.floor('legacy_judged', 300 if quick else 6000)
+    c.floor('dynamic_checks', 1500 if quick else 20000)
+    c.floor('dynamic_state_changed_during_check', 500 if quick else 7000)
+    c.floor('dynamic_change_deferred_because_monitor_held_comp_lock', 100 if quick else 1500)
     sys.exit(c.finish())
 
 
